@@ -364,6 +364,8 @@ fn palette_header(k: u32, salt: u8) -> Header {
         1 => HeaderBuilder::new().algorithm(iana::Algorithm::ES256).build(),
         2 => HeaderBuilder::new().key_id(vec![salt, 1]).build(),
         3 => HeaderBuilder::new().value(1000 + salt as i64, Value::Null).build(),
+        // a header that has no encoding: an extra parameter repeats the label of a populated typed field
+        4 => Header { alg: Some(Algorithm::Assigned(iana::Algorithm::ES256)), rest: vec![(Label::Int(1), Value::Null)], ..Default::default() },
         _ => Header::default(),
     }
 }
@@ -384,6 +386,21 @@ fn free_structures(p: &[&str]) -> String {
     let pl_buf: Vec<u8> = if p.len() > 5 { vec![0x5a; p[5].parse().unwrap()] } else { b"payload".to_vec() };
     let aadv: &[u8] = &aad_buf;
     let pl: &[u8] = &pl_buf;
+    if p[2] == "4" || (p.len() > 3 && p[3] == "4") {
+        // no encoding exists for this header: the only acceptable outcome is a refusal
+        let sign = if p.len() > 3 && p[3] != "-" { Some(mk(p[3], 2)) } else { None };
+        let r = std::panic::catch_unwind(std::panic::AssertUnwindSafe(|| match p[0] {
+            "sig" => sig_structure_data([SignatureContext::CoseSignature, SignatureContext::CoseSign1, SignatureContext::CounterSignature][ci],
+                                        body.clone(), sign.clone(), aadv, pl),
+            "mac" => mac_structure_data([MacContext::CoseMac, MacContext::CoseMac0][ci], body.clone(), aadv, pl),
+            _ => enc_structure_data([EncryptionContext::CoseEncrypt, EncryptionContext::CoseEncrypt0, EncryptionContext::EncRecipient,
+                                     EncryptionContext::MacRecipient, EncryptionContext::RecRecipient][ci], body.clone(), aadv),
+        }));
+        return match r {
+            Err(_) => "MATCH refused".into(),
+            Ok(b) => format!("MISMATCH structure {} produced for a protected header that has no encoding", hex::encode(b)),
+        };
+    }
     let (got, want) = match p[0] {
         "sig" => {
             let ctxs = [("Signature", SignatureContext::CoseSignature), ("Signature1", SignatureContext::CoseSign1),
@@ -670,7 +687,10 @@ fn built(what: &str, p: &[&str]) -> String {
 /// the input with an independent walk over the ciborium Value, and checks that it is accepted iff
 /// the nesting does not exceed <limit> (-1: no limit), and that an accepted input round-trips.
 fn spine(p: &[&str]) -> String {
-    let mode = p[0];
+    // p[0] = <mode>[:<Type>]
+    let mut it = p[0].split(':');
+    let mode = it.next().unwrap();
+    let ty = it.next().unwrap_or("CoseSign1");
     let data = unhex(p[1]);
     let limit: i64 = p[2].parse().unwrap();
     fn depth_of_header(h: &Value) -> usize {
@@ -691,6 +711,7 @@ fn spine(p: &[&str]) -> String {
         best
     }
     fn depth_of_sig(s: &Value) -> usize {
+        // a structure whose first two slots are the protected bstr and the unprotected map
         let mut d = 0;
         if let Value::Array(a) = s {
             if a.len() >= 2 {
@@ -705,21 +726,39 @@ fn spine(p: &[&str]) -> String {
         d
     }
     let v = match Value::from_slice(&data) { Ok(v) => v, Err(_) => return "UNPARSABLE".into() };
-    let nesting = depth_of_sig(&v);       // a COSE_Sign1 has its headers in the same two slots
-    let r = CoseSign1::from_slice(&data);
-    let want_ok = limit < 0 || nesting as i64 <= limit;
-    if mode == "limit" && r.is_ok() != want_ok {
-        return format!("MISMATCH nesting={} limit={} accepted={}", nesting, limit, r.is_ok());
-    }
-    if mode == "limit" {
-        return format!("MATCH nesting={}", nesting);
-    }
-    if let Ok(x) = r {
-        let b1 = match x.clone().to_vec() { Ok(b) => b, Err(_) => return "MISMATCH accepted spine does not encode".into() };
-        match CoseSign1::from_slice(&b1) {
-            Ok(y) => if y != x { return "MISMATCH decode(encode(v)) != v".into(); },
-            Err(e) => return format!("MISMATCH encoding of an accepted spine is rejected ({})", err_name(&e)),
+    let mut nesting = depth_of_sig(&v);
+    if ty == "CoseSign" {
+        if let Value::Array(a) = &v {
+            if let Some(Value::Array(sigs)) = a.get(3) {
+                for s in sigs { nesting = nesting.max(depth_of_sig(s)); }
+            }
         }
     }
-    format!("MATCH nesting={}", nesting)
+    fn run<T: CborSerializable + AsCborValue + Clone + PartialEq>(mode: &str, data: &[u8], nesting: usize, limit: i64) -> String {
+        let r = T::from_slice(data);
+        let want_ok = limit < 0 || nesting as i64 <= limit;
+        if mode == "limit" && r.is_ok() != want_ok {
+            return format!("MISMATCH nesting={} limit={} accepted={}", nesting, limit, r.is_ok());
+        }
+        if mode == "limit" {
+            return format!("MATCH nesting={}", nesting);
+        }
+        if r.is_err() && want_ok {
+            // the bytes are the encoding of a value within the documented limit: it does not decode back
+            return format!("MISMATCH nesting={} within limit={} is rejected: encode/decode loses the value", nesting, limit);
+        }
+        if let Ok(x) = r {
+            let b1 = match x.clone().to_vec() { Ok(b) => b, Err(_) => return "MISMATCH accepted spine does not encode".into() };
+            match T::from_slice(&b1) {
+                Ok(y) => if y != x { return "MISMATCH decode(encode(v)) != v".into(); },
+                Err(e) => return format!("MISMATCH encoding of an accepted spine is rejected ({})", err_name(&e)),
+            }
+        }
+        format!("MATCH nesting={}", nesting)
+    }
+    match ty {
+        "CoseSignature" => run::<CoseSignature>(mode, &data, nesting, limit),
+        "CoseSign" => run::<CoseSign>(mode, &data, nesting, limit),
+        _ => run::<CoseSign1>(mode, &data, nesting, limit),
+    }
 }
